@@ -260,10 +260,18 @@ func (c *Ctx) checkPost(st *State, ct *FuncContract, vals []Val, pos token.Pos) 
 			c.abort("ensures %d: %v", i+1, err)
 			return
 		}
+		nb := len(c.obls)
 		c.addObl(st, "post", fmt.Sprintf("post.%d", i+1), t, fmt.Sprintf("postcondition `%s`", en.Src))
+		if len(en.Props) > 0 && len(c.obls) > nb {
+			c.obls[len(c.obls)-1].Props = en.Props
+		}
 	}
 	if ct.HasMod {
-		c.checkFrame(st, ct, env)
+		if ct.Flags["assume-frame"] {
+			c.note("flag assume-frame: the modifies clause of this unit is assumed, not checked")
+		} else {
+			c.checkFrame(st, ct, env)
+		}
 	}
 }
 
@@ -271,6 +279,11 @@ func (c *Ctx) checkPost(st *State, ct *FuncContract, vals []Val, pos token.Pos) 
 // covered by the modifies clause (whole key, or the listed locations only).
 func (c *Ctx) checkFrame(st *State, ct *FuncContract, env *SpecEnv) {
 	old := st.old
+	for _, item := range ct.Modifies {
+		if strings.TrimSpace(item) == "*" {
+			return
+		}
+	}
 	if st.epoch != old.epoch {
 		c.addObl(st, "frame", "frame.all", "false", "a call without contract may have modified everything; modifies clause cannot be checked")
 		return
